@@ -200,6 +200,7 @@ func NewClientConn(ctx context.Context, sid [64]byte, serverHost string,
 			// FIN packet by the server. In that case, if we didn't
 			// force a new status, the client would never mark the
 			// connection as status ClientStatusSessionNotFound.
+			vtraceClient(c, "finCb", ClientStatusSessionNotFound)
 			c.setStatus(ClientStatusSessionNotFound)
 		}),
 	}
@@ -288,10 +289,12 @@ func (c *ClientConn) setStatus(s ClientStatus) {
 		(c.status == ClientStatusSessionInUse ||
 			c.status == ClientStatusSessionNotFound) {
 
+		vtraceClient(c, "statusKept", s)
 		return
 	}
 
 	c.status = s
+	vtraceClient(c, "status", s)
 	c.onNewStatus(s)
 }
 
@@ -340,11 +343,13 @@ func (c *ClientConn) recv(ctx context.Context) ([]byte, error) {
 			c.log.Debugf("Got failure on receive "+
 				"socket/stream, re-trying: %v", err)
 
+			vtraceClient(c, "recvFail", errStatus)
 			c.setStatus(errStatus)
 			c.createReceiveMailBox(ctx, retryWait)
 			continue
 		}
 
+		vtraceClient(c, "recvOk", ClientStatusConnected)
 		c.setStatus(ClientStatusConnected)
 		return msg, nil
 	}
@@ -384,6 +389,7 @@ func (c *ClientConn) send(ctx context.Context, payload []byte) error {
 			c.log.Debugf("Got failure on send socket/stream, "+
 				"re-trying: %v", err)
 
+			vtraceClient(c, "sendFail", errStatus)
 			c.setStatus(errStatus)
 			c.createSendMailBox(ctx, retryWait)
 			continue
